@@ -175,9 +175,10 @@ class LoopSummary:
 
 
 class State:
-    __slots__ = ("env", "heap", "facts", "trace", "frames")
+    __slots__ = ("env", "heap", "facts", "trace", "frames", "raised")
 
     def __init__(self):
+        self.raised = False
         self.env: Dict[str, Any] = {}
         self.heap: List[Store] = []
         self.facts = Facts()
@@ -191,6 +192,7 @@ class State:
         s.facts = self.facts.copy()
         s.trace = list(self.trace)
         s.frames = list(self.frames)
+        s.raised = self.raised
         return s
 
 
@@ -471,6 +473,8 @@ class Interp:
             nxt: List[State] = []
             for cur in live:
                 for r in self.exec_stmt(s, cur):
+                    if r.state.raised and r.outcome != "raise":
+                        r = PathResult(r.state, "raise")
                     if r.outcome == "fall":
                         nxt.append(r.state)
                     else:
@@ -549,6 +553,44 @@ class Interp:
                     self.ev(st2, "raise", s, value="AssertionError")
                     out.append(PathResult(st2, "raise"))
             return out
+        if isinstance(s, ast.Try):
+            # approximation: the handlers start from the state at the entry of the try block (the statement that
+            # raised had no effect); the normal path runs body (+ else); finally blocks are appended to both.
+            out: List[PathResult] = []
+            entry = st.fork()
+            body = self.exec_block(list(s.body) + list(s.orelse), st)
+            results: List[PathResult] = []
+            caught: List[State] = [entry]
+            for r in body:
+                if r.outcome == "raise" and s.handlers:
+                    r.state.raised = False
+                    caught.append(r.state)
+                else:
+                    results.append(r)
+            for h in s.handlers:
+              for src in caught:
+                hs = src.fork()
+                self.ev(hs, "except", h, value=ast.unparse(h.type) if h.type is not None else "BaseException")
+                if h.name:
+                    hs.env[h.name] = self.fresh_root("exc", ("exception", ast.unparse(h.type) if h.type is not None else ""))
+                results.extend(self.exec_block(h.body, hs))
+                if len(s.handlers) > 1 and src is not entry:
+                    break
+            if s.finalbody:
+                fin: List[PathResult] = []
+                for r in results:
+                    for r2 in self.exec_block(s.finalbody, r.state):
+                        fin.append(r2 if r2.outcome != "fall" else PathResult(r2.state, r.outcome, r.value))
+                results = fin
+            return results
+        if isinstance(s, ast.With):
+            for item in s.items:
+                for st2, v in self.eval(item.context_expr, st):
+                    if item.optional_vars is not None:
+                        self.assign(item.optional_vars, v, st2, s)
+            return self.exec_block(s.body, st)
+        if isinstance(s, ast.Delete):
+            return [PathResult(st, "fall")]
         if isinstance(s, (ast.Import, ast.ImportFrom, ast.Global, ast.Nonlocal)):
             if isinstance(s, ast.Global):
                 self.unmodelled.append(f"{self.fq()}: global statement at line {s.lineno}")
@@ -907,7 +949,27 @@ class Interp:
                 out.append((s2, v))
         return out
 
-    def e_ListComp(self, e: ast.ListComp, st: State):
+    def e_ListComp(self, e: Any, st: State):
+        """Comprehension: its element / filter expressions are evaluated once on a generic element (so that the calls
+        they make are recorded); the result is an opaque collection."""
+        saved = dict(st.env)
+        try:
+            for g in e.generators:
+                its = self.eval(g.iter, st)
+                if not its:
+                    continue
+                self.n += 1
+                idx = Aff.atom(("it", self.n))
+                self.assign(g.target, self._iter_element(its[0][1], idx, st, e), st, e)
+                for c in g.ifs:
+                    self.eval(c, st)
+            parts = [e.key, e.value] if isinstance(e, ast.DictComp) else [e.elt]
+            for part in parts:
+                self.eval(part, st)
+        except AnalysisError:
+            raise
+        finally:
+            st.env = saved
         return [(st, self.fresh_root("listcomp", ("listcomp", ast.unparse(e))))]
 
     e_GeneratorExp = e_ListComp
@@ -1283,12 +1345,12 @@ class Interp:
         for r in results:
             s = r.state
             _, caller_env = s.frames.pop()
-            s.env = caller_env
+            s.env = dict(caller_env)
             self.ev(s, "exit", node, name=fn.fq, value=r.value if r.outcome == "return" else NONE)
             if r.outcome == "raise":
-                # propagate as a path that raises in the caller: modelled by a marker value
+                # the exception propagates into the caller: the enclosing statement ends with outcome 'raise'
+                s.raised = True
                 out.append((s, Aff.atom(("raised", fn.fq))))
-                s.env["__raised__"] = K(1)
             else:
                 out.append((s, r.value if r.outcome == "return" else NONE))
         return out
